@@ -78,6 +78,12 @@ Definition s3eqb (a b : string * string * bool) : bool :=
   seqb (fst (fst a)) (fst (fst b)) && seqb (snd (fst a)) (snd (fst b)) && Bool.eqb (snd a) (snd b).
 Definition s2eqb (a b : string * bool) : bool := seqb (fst a) (fst b) && Bool.eqb (snd a) (snd b).
 Definition osteqb := opt_eqb String.eqb.
+(* the same any value (dynamic type and abstract identity), uncomparable ones included *)
+Definition anyv_same (a b : anyv) : bool :=
+  match a, b with
+  | AUncmp t i, AUncmp t' i' => String.eqb t t' && Z.eqb i i'
+  | _, _ => anyv_eqb a b
+  end.
 Definition ozeqb := opt_eqb Z.eqb.
 (* does message msg arise from format f? every verb is a wild card *)
 Fixpoint fmt_pat (l : list ascii) : list (option ascii) :=
@@ -108,7 +114,9 @@ Definition fmt_matches (f msg : string) : bool :=
 Definition err_matches (e : option err) (msg : option string) : bool :=
   match e, msg with
   | None, None => true
-  | Some (Err t f _), Some m => if String.eqb t "errors" then String.eqb f m else fmt_matches f m
+  | Some (Err t f _), Some m =>
+      if String.eqb t "errors.join" then true   (* the messages of the joined errors, one per line *)
+      else fmt_matches f m
   | _, _ => false
   end.
 `
@@ -696,9 +704,18 @@ func selftestC08(r *Rng, gens map[string]*gen) *stFile {
 	return f
 }
 
+// extraSelftests: generators registered by files under additional build tags (golite_selftest_hooks.go).
+var extraSelftests []func(r *Rng, gens map[string]*gen) []*stFile
+
 func runSelftest(repo, out string, gens map[string]*gen) {
 	r := NewRng(20260928)
 	files := append([]*stFile{selftestGoLib(r)}, selftestTargets(r, gens)...)
+	for _, extra := range extraSelftests {
+		files = append(files, extra(r, gens)...)
+	}
+	if len(extraSelftests) == 0 {
+		fmt.Println("golite-selftest: hooks: absent (built without the tag verifhooks): the unexported targets are skipped")
+	}
 	sg, sf := selftestSynth(r)
 	files = append(files, sf)
 	if sg != nil {
